@@ -62,9 +62,9 @@ def batch(prop, tier, sd):
             # all n<=2 and a seeded third of n=3
             ex = [d for d in ex if len(d['providers']) <= 2] + rng.sample([d for d in ex if len(d['providers']) == 3], 30)
         out += ex
-        nrand = 50 if quick else 400
+        nrand = 130 if quick else 500
         for i in range(nrand):
-            out.append(ds.random_decl(rng, 'r%04d' % i, nmin=3, nmax=7 if quick else 8, p_fallible=0.0,
+            out.append(ds.random_decl(rng, 'r%04d' % i, nmin=3, nmax=8, p_fallible=0.0, p_async=rng.choice([0.45, 0.6, 0.8]),
                                       zero_in_async=rng.choice([0, 0, 1, 2, 3])))
         if prop == 'C02':
             base = [d for d in out if d['id'].startswith('r')][: (10 if quick else 60)]
@@ -116,9 +116,17 @@ def batch(prop, tier, sd):
         out += pick
         nrand = 40 if quick else 300
         for i in range(nrand):
-            out.append(ds.random_decl(rng, 'f%04d' % i, nmin=3, nmax=6 if quick else 7,
-                                      p_fallible=0.5 if prop != 'C07' else 0.3, p_async=0.6,
-                                      zero_in_async=rng.choice([0, 1, 2, 2])))
+            d = ds.random_decl(rng, 'f%04d' % i, nmin=3, nmax=6 if quick else 7,
+                               p_fallible=0.5 if prop != 'C07' else 0.3, p_async=0.6,
+                               zero_in_async=rng.choice([0, 1, 2, 2]))
+            if i % 3 == 0:
+                # a provider that takes the context itself (the injector then has a user-supplied ctx parameter)
+                fns = [p for p in d['providers'] if p['kind'] == 'fn' and 'ctx' not in p['requires']]
+                if fns:
+                    p = rng.choice(fns)
+                    p['requires'] = list(p['requires'])
+                    p['requires'].insert(rng.randint(0, len(p['requires'])), 'ctx')
+            out.append(d)
     out = [d for d in out if ds.accepts(d)]
     # unique ids
     seen = set()
@@ -142,6 +150,8 @@ def site(prog, line):
 
 def signature(clause, prog, rline, parked_lines):
     parts = [clause]
+    if clause in ('C07.hang', 'C07.partial', 'C06.hang'):
+        parts.append('haserr=%s' % str(bool(prog.get('haserr'))).lower())
     if clause in ('C06.subst', 'C06.nil', 'C07.partial', 'C08.stuck', 'C02.value', 'C03.join'):
         parts.append('ret=' + site(prog, rline))
     if clause in ('C08.stuck', 'C07.hang', 'C06.hang', 'C03.deadlock', 'C03.join'):
